@@ -27,6 +27,7 @@ META = {
     "trusted_base": ["ciborium Value::Bytes holds the bstr content", "derive(Clone) clones field-wise"],
 }
 META["decides"] += ' (As built: R-1 also accepts any other construction from a given Header that stores original_data = None; R-5 is decided in every public function with all crate-local callees expanded in place.)'
+META["decides"] += ' R-3 also: the map form of ProtectedHeader is Header::to_cbor_value(self.header) and the byte-level API defaults are not overridden; R-5 also: Clone impls are derived; the wire constructor / Clone / Default of ProtectedHeader are the derived ones.'
 
 PH = "header::ProtectedHeader"
 WIRE_CTOR = "header::ProtectedHeader::from_cbor_bstr_depth"
